@@ -1,7 +1,7 @@
 """Per-property and per-suite configuration of the orchestrator."""
 
 # .vo files Extract.v depends on (built before extraction)
-EXTRACT_DEPS = ['Codec/FilterCase.vo', 'Agent/ReasmRs.vo', 'Agent/Model.vo', 'Agent/Monitors.vo', 'Codec/WireMon.vo', 'Codec/EncodeMsg.vo', 'Proofs/ArcHeapProofs.vo', 'Codec/AttrValue.vo', 'Codec/WireFull.vo', 'Codec/Message.vo', 'Codec/Keys.vo']
+EXTRACT_DEPS = ['Codec/FilterCase.vo', 'Agent/ReasmRs.vo', 'Agent/Model.vo', 'Agent/Monitors.vo', 'Codec/WireMon.vo', 'Codec/EncodeMsg.vo', 'Proofs/ArcHeapProofs.vo', 'Codec/AttrValue.vo', 'Codec/WireFull.vo', 'Codec/Message.vo', 'Codec/Keys.vo', 'Codec/Ignored.vo']
 
 SUITES = {
     'attrval': dict(bin='attrval', nontrivial=r'^C [DE] '),
@@ -104,7 +104,7 @@ PROPS = {
                      'fingerprint tail; encoded and decoded by stun-rs, compared byte for byte (md5) and value for value with the Gallina codec; plus quoted-string constructor probes; '
                      'suite attrval: per-kind value decode / encode records (valid, mutated, random); suite wire: see C04; distinct = distinct records; non-trivial = at least one attribute',
                 assumptions=['PRECIS OpaqueString is modelled on printable ASCII only (non-ASCII user names are UNMODELLED: compared by the monitor only)']),
-    'C02': dict(suites=['attrval', 'codecrt'], monitors=['C02'],
+    'C02': dict(suites=['attrval', 'codecrt'], monitors=['C02', 'C02ign'],
                 rule='suites attrval and codecrt (see C01): every value and every message the implementation encodes is compared byte for byte with the Gallina reference codec',
                 assumptions=['the reference codec is the Gallina model (written from the code and the RFCs) plus the RFC layout theorems of Props/C02.v; type codes are part of every compared record']),
 }
